@@ -122,6 +122,14 @@ Theorem C03_others_keep_holdings : forall a c l ops who, takes_only_from ops who
 Proof. exact takes_only_holdings. Qed.
 Print Assumptions C03_others_keep_holdings.
 
+(* the guilty-verdict hook takes from the guilty validator's STAKE ADDRESS only (the exception named in the property) *)
+Theorem C03_penalty_debits_the_guilty_stake_account : forall (l : gmap key Z) (stake val bounty : N) (pct dec bpct bdec : Z),
+  0 <= val_total l val -> 0 <= pct -> 0 < dec -> 0 <= bpct <= bdec -> 0 < bdec ->
+  no_creation (penalty_ops l stake val bounty pct dec bpct bdec) /\ credits_ok (penalty_ops l stake val bounty pct dec bpct bdec) /\
+  takes_only_from (penalty_ops l stake val bounty pct dec bpct bdec) [stake].
+Proof. exact penalty_ops_facts. Qed.
+Print Assumptions C03_penalty_debits_the_guilty_stake_account.
+
 (* ---------------- the three maturity hooks never change anybody's holdings ---------------- *)
 Theorem C03_maturity_neutral_undelegation : forall a c (l : gmap key Z) h,
   holdings a c (run_tx l (maturity_ops l B_UNDELEG h to_balance)) = holdings a c l.
